@@ -198,6 +198,8 @@ P = {
   decided={
     "C19.a": "every site that installs a parser-context-changing attribute (ws/skipws/eolterm) on an expression while arpeggio's packrat key is the position only",
     "C19.b": "the memoization option is forwarded unchanged to the model parser",
+    "C19.d": "an explicit whitespace modifier is never dropped (a rule stating its mode pins it)",
+    "C01.b": "(shared with C01) repetition modifiers (sep, eolterm) are both installed on assignments and repetitions",
     "C19.c": "no process-wide cache shares an object built for one memoization setting with another",
   },
   declined="equality of models / error positions in general",
@@ -205,12 +207,14 @@ P = {
 "C20": dict(
   decided={"C20.a": "every Match construction in the grammar visitor passes ignore_case derived from metamodel.ignore_case",
            "C20.c": "no process-wide cache holds an object built with ignore_case under a key that omits it",
+           "C20.d": "the ignore_case argument of every Match construction is metamodel.ignore_case on every reaching definition",
            "C20.b": "the ignore_case option of the metamodel is forwarded to the model parser under its own name"},
   declined="that case mutation never changes acceptance; value case preservation (Arpeggio terminals)",
   technique="must-pass keyword-argument rule with alias expansion over all Match constructions"),
 "C21": dict(
   decided={"C21.a": "keyword classification regex is the identifier class; keyword branch only on a full match; emitted regex ends in \\b; non-keyword path builds the same StrMatch",
            "C21.c": "no process-wide cache holds an object built with autokwd under a key that omits it",
+           "C21.d": "the keyword classification is applied to the decoded literal (escape decoding precedes it)",
            "C21.b": "the autokwd option of the metamodel is forwarded to the model parser under its own name"},
   declined="model equality with/without autokwd for all inputs",
   technique="regex category algebra + guard analysis on the RegExMatch construction"),
@@ -218,6 +222,10 @@ P = {
   decided={
     "C22.a": "rule modifiers are installed on an expression that honours them (same rule as C01.c)",
     "C22.b": "the Comment rule is looked up after all rules are visited and handed to the parser; ws escape table in visit_rule_params",
+    "C22.d": "every rule parameter given in the grammar reaches the parameter table (no skip path in visit_rule_params)",
+    "C22.e": "every root wrapper built while rule parameters may be present receives them",
+    "C22.f": "the ws escape translation covers \\n \\r \\t",
+    "C22.g": "the comment model handed to the parser is refreshed after rule references are resolved",
     "C22.c": "the skipws and ws options of the metamodel are forwarded to the model parser under their own names",
   },
   declined="invariance of the model under inserted whitespace/comments (Arpeggio)",
@@ -229,6 +237,8 @@ P = {
     "C23.c": "error handlers do not crash (no subscript of a terminal node)",
     "C23.d": "kind errors: possibly-bool / possibly-RuleCrossRef values are not used as containers / expression nodes",
     "C23.e": "recursion along rule cross-references carries a cycle check",
+    "C23.f": "the handler around the compilation of a user regex is `except Exception` or wider",
+    "C23.g": "a dict.get() result is not used as a container/object without a None test",
   },
   declined="absence of all implicit exceptions (KeyError/IndexError/AttributeError) from arbitrary malformed grammars: no sound static bound for untyped Python",
   technique="call-graph reachability + raise discipline + try/handler conversion check"),
@@ -236,6 +246,7 @@ P = {
   decided={
     "C24.a": "structural agreement of the PEG extracted from lang.py/rrel.py and the PEG read from textx.tx, modulo a stated normal form and a reasoned equivalence table",
     "C24.b": "terminal vocabulary agreement",
+    "C24.d": "the self-hosted metamodel and the grammar compiler's parser use the same (default, constant) tokenisation options",
     "C24.c": "the cached grammar parser is built from nothing that is missing from its cache key (it must not inherit a metamodel's ignore_case etc.)",
   },
   declined="language equality beyond structure (undecidable in general); the model shape grammar_model_from_str yields",
